@@ -73,6 +73,9 @@ func idBytes(tag byte, i int) []byte {
 		b[20], b[21] = tag+byte(i), byte(i*7+1)
 		return b
 	}
+	if idScheme == 3 {
+		return []byte{tag + byte(15-i), byte(i*7 + 1)} // descending along the committee order
+	}
 	return []byte{tag + byte(i), byte(i*7 + 1)}
 }
 
@@ -86,6 +89,10 @@ func outsiderId(i int) []byte {
 }
 
 func NewNet(c *Ctx, o NetOpts, label string) *Net {
+	if forceIdScheme >= 0 {
+		o.IdScheme = forceIdScheme
+		label += fmt.Sprintf(" ids=scheme%d", forceIdScheme)
+	}
 	idScheme = o.IdScheme
 	c.Class(fmt.Sprintf("ids/scheme%d", idScheme))
 	w := NewWorld(o.Inst)
